@@ -348,6 +348,7 @@ def py_queue(case, state=None):
     n = len(ns)
     M = nodes.M
     st = state or {"out": [None] * n, "own": [[i["init"] for i in nd["ins"]] for nd in ns], "recv": [set() for _ in ns]}
+    st["recv"] = [set() for _ in ns]        # every run() starts fresh rounds at all all-of triggers
     prov, q, errs = [], [], set()
     accs = [{(m, s) for m, nd in enumerate(ns) for s, lst in nd["sig"].items() for t in lst if t == [i, "acc"]}
             for i in range(n)]
